@@ -145,11 +145,30 @@ func roundTrip(v any) any {
 	return out
 }
 
+// normZero turns the negative zero into zero (they are equal numbers; a harness building Go ints drops the sign)
+func normZero(v any) any {
+	switch x := v.(type) {
+	case float64:
+		if x == 0 {
+			return float64(0)
+		}
+	case []any:
+		for i := range x {
+			x[i] = normZero(x[i])
+		}
+	case map[string]any:
+		for k := range x {
+			x[k] = normZero(x[k])
+		}
+	}
+	return v
+}
+
 func jsonEqual(a, b any) bool { return reflect.DeepEqual(roundTrip(a), roundTrip(b)) }
 
 // canonText renders a value with sorted keys (for multiset comparison).
 func canonText(v any) string {
-	b, _ := json.Marshal(roundTrip(v))
+	b, _ := json.Marshal(normZero(roundTrip(v)))
 	return string(b)
 }
 
